@@ -73,7 +73,7 @@ func (e *Env) spine() *spine {
 		case n.IsCallTo("path/filepath.Walk", "path/filepath.WalkDir"):
 			sp.walks = append(sp.walks, n)
 		case isStat(n):
-			s := e.argSym(n, 0)
+			s := e.xargSym(n, 0)
 			fl := s.Flat()
 			switch {
 			case isTempDirRoot(s):
@@ -84,11 +84,11 @@ func (e *Env) spine() *spine {
 				sp.ensureStat = append(sp.ensureStat, n)
 			}
 		case isMkdir(n):
-			if isTempDirRoot(e.argSym(n, 0)) {
+			if isTempDirRoot(e.xargSym(n, 0)) {
 				sp.mkTemp = append(sp.mkTemp, n)
 			}
 		case isRemoveAll(n):
-			if isTempDirRoot(e.argSym(n, 0)) {
+			if isTempDirRoot(e.xargSym(n, 0)) {
 				sp.rmTemp = append(sp.rmTemp, n)
 			}
 		case isRename(n):
@@ -98,7 +98,7 @@ func (e *Env) spine() *spine {
 				sp.declRename = append(sp.declRename, n)
 			}
 		case isWriteFile(n) || n.IsCallTo("os.OpenFile", "os.Create"):
-			if isCallSym(e.argSym(n, 0), fnAuditPath) {
+			if isCallSym(e.xargSym(n, 0), fnAuditPath) {
 				sp.auditWrite = append(sp.auditWrite, n)
 			}
 		}
@@ -106,46 +106,69 @@ func (e *Env) spine() *spine {
 	return sp
 }
 
-// loopExitNodes returns, for the innermost loop around instruction in (in n's context), the nodes that are
-// entered when the loop is left through its header (normal exhaustion of the range / counted loop).
-func loopExitNodes(g *core.XG, n *core.Node) (exit []*core.Node, l *core.Loop) {
-	l = core.InnermostLoop(n.Instr)
-	if l == nil {
-		return nil, nil
-	}
-	_, iff := core.HeaderTest(l)
-	if iff == nil {
-		return nil, l
-	}
-	for _, m := range g.Nodes {
-		if m.Ctx == n.Ctx && m.Instr == ssa.Instruction(iff) && len(m.Succs) == 2 {
-			// the successor that leaves the loop
-			for i, s := range iff.Block().Succs {
-				if !l.Blocks[s] {
-					exit = append(exit, m.Succs[i])
-				}
-			}
+// iterLoops: the range / counted loops around n along the calling-context chain, nearest first.
+func iterLoops(g *core.XG, n *core.Node) []core.LoopAt {
+	var out []core.LoopAt
+	for _, la := range g.EnclLoops(n) {
+		if kind, _ := core.HeaderTest(la.L); kind == "range" || kind == "counted" {
+			out = append(out, la)
 		}
 	}
-	return exit, l
+	return out
 }
 
-// loopHeadNext returns the node of the `next` instruction of the range loop around n (same context).
-func loopHeadNext(g *core.XG, n *core.Node) *core.Node {
-	l := core.InnermostLoop(n.Instr)
-	if l == nil {
-		return nil
-	}
-	for _, in := range l.Header.Instrs {
+// loopCollection renders the collection a loop iterates over (the ranged map / channel, or the slice whose
+// length bounds the index), in the loop's context; "" when not recognisable.
+func (e *Env) loopCollection(g *core.XG, la core.LoopAt) string {
+	for _, in := range la.L.Header.Instrs {
 		if nx, ok := in.(*ssa.Next); ok {
-			for _, m := range g.Nodes {
-				if m.Ctx == n.Ctx && m.Instr == ssa.Instruction(nx) {
-					return m
+			if rg, ok := nx.Iter.(*ssa.Range); ok {
+				return e.symbolizer().InCtx(la.At.Ctx, rg.X).String()
+			}
+		}
+	}
+	if _, iff := core.HeaderTest(la.L); iff != nil {
+		if bo, ok := iff.Cond.(*ssa.BinOp); ok {
+			for _, v := range []ssa.Value{bo.Y, bo.X} {
+				if c, ok := v.(*ssa.Call); ok {
+					if bi, ok := c.Call.Value.(*ssa.Builtin); ok && bi.Name() == "len" {
+						return e.symbolizer().InCtx(la.At.Ctx, c.Call.Args[0]).String()
+					}
 				}
 			}
 		}
 	}
-	return nil
+	return ""
+}
+
+// loopOver returns the nearest loop around n whose collection mentions substr ("" = nearest loop).
+func (e *Env) loopOver(g *core.XG, n *core.Node, substr string) (core.LoopAt, bool) {
+	for _, la := range iterLoops(g, n) {
+		if substr == "" || strings.Contains(e.loopCollection(g, la), substr) {
+			return la, true
+		}
+	}
+	return core.LoopAt{}, false
+}
+
+// loopExitNodes returns the nodes entered when the nearest loop around n (along the context chain) is left
+// through its header test (normal exhaustion of the range / counted loop).
+func loopExitNodes(g *core.XG, n *core.Node) (exit []*core.Node, l *core.Loop) {
+	las := iterLoops(g, n)
+	if len(las) == 0 {
+		return nil, nil
+	}
+	return g.LoopExitNodes(las[0]), las[0].L
+}
+
+// loopHeadNext returns the node computing the continuation test of the nearest loop around n.
+func loopHeadNext(g *core.XG, n *core.Node) *core.Node {
+	las := iterLoops(g, n)
+	if len(las) == 0 {
+		return nil
+	}
+	t, _, _ := g.LoopTest(las[0])
+	return t
 }
 
 // errResult builds the abstract result of a call in which the error result is non-nil (class cls)
@@ -171,33 +194,49 @@ func errResult(n *core.Node, cls core.ErrClass, isNil bool) core.AV {
 	return core.TupleAV(t...)
 }
 
-// forAllOutputs checks the ForAll idiom for an action executed for every element of a ranged collection:
-// (1) the loop around the action cannot be left early (break / return), (2) under the given field
-// assumption every iteration that goes on to the next one executes the action.
+// forAllOutputs checks the ForAll idiom for an action executed for every element of an iterated collection:
+// (1) the nearest loop around the action (along the calling-context chain, so an action extracted into a
+// helper counts) cannot be left early except on paths on which the program then never continues normally
+// (a `return err` that the callers turn into a fatal failure is harmless); (2) under the given assumption,
+// no iteration reaches the next one without performing the action.
 func (e *Env) forAllOutputs(ob *core.Obligation, g *core.XG, action *core.Node, isAction func(*core.Node) bool, assume core.Scenario, what string) bool {
-	l := core.InnermostLoop(action.Instr)
-	if l == nil {
-		ob.Fail(g.Where(action), what+" is not inside a loop over the task's outputs")
+	las := iterLoops(g, action)
+	if len(las) == 0 {
+		ob.Fail(g.Where(action), what+" is not inside a loop over the items")
 		return false
 	}
-	if kind, _ := core.HeaderTest(l); kind != "range" && kind != "counted" {
-		ob.Unknown(g.Where(action), "loop shape not recognised (header test: "+kind+")")
-		return false
+	return e.forAllIn(ob, g, las[0], action, isAction, assume, what)
+}
+
+func (e *Env) forAllIn(ob *core.Obligation, g *core.XG, la core.LoopAt, action *core.Node, isAction func(*core.Node) bool, assume core.Scenario, what string) bool {
+	for _, ed := range e.P.EarlyExitEdges(la.L) {
+		tgt := g.FirstNodeOf(la.At.Ctx, ed.To)
+		if tgt == nil {
+			continue // pruned: ends in a never-returning call
+		}
+		sc := assume
+		sc.Start, sc.AtEntry, sc.Result = tgt, true, core.Top
+		if w := g.Run(sc).NormalReturn(); w != nil {
+			pos := "?"
+			if len(ed.From.Instrs) > 0 {
+				pos = e.P.InstrPos(ed.From.Instrs[len(ed.From.Instrs)-1])
+			}
+			ob.Fail(g.Where(action), what+": the loop over the items can be left before all of them were handled: edge out of the loop body at "+pos+", after which the program continues normally")
+			return false
+		}
 	}
-	if ex := e.P.EarlyExits(l); len(ex) > 0 {
-		ob.Fail(g.Where(action), what+": the loop over the outputs can be left before all of them were handled: "+ex[0])
-		return false
-	}
-	head := loopHeadNext(g, action)
-	if head == nil {
-		ob.Unknown(g.Where(action), "range header not found")
+	test, enter, ok := g.LoopTest(la)
+	if !ok {
+		ob.Unknown(g.Where(action), "loop shape not recognised (no continuation test found)")
 		return false
 	}
 	sc := assume
-	sc.Start = head
-	sc.Result = core.TupleAV(core.BoolAV(true), core.Top, core.Top)
+	sc.Start, sc.AtEntry = test, false
+	if _, isExtract := test.Instr.(*ssa.Extract); isExtract || test.Instr != nil {
+		sc.Result = core.BoolAV(enter)
+	}
 	res := g.Run(sc)
-	if w := res.ReachesAvoiding(func(m *core.Node) bool { return m == head }, isAction); w != nil {
+	if w := res.ReachesAvoiding(func(m *core.Node) bool { return m == test }, isAction); w != nil {
 		ob.Fail(g.Where(action), what+": an iteration can reach the next one without performing the action")
 		return false
 	}
